@@ -114,8 +114,8 @@ def parseFreeObs (ts : List String) : Option (Nat × Nat × Nat × Nat × Bool) 
 
 /-- Defaults as the extractor saw them in the source. -/
 def capsLine : String :=
-  s!"maxconn={session.DefaultMaxConnections} maxctrl={session.DefaultMaxControlConnections} " ++
-  s!"codes={conncode.MaxActiveCodesPerClient} mappings={conncode.MaxActiveMappingsPerClient}"
+  s!"maxconn={lim_session.DefaultMaxConnections} maxctrl={lim_session.DefaultMaxControlConnections} " ++
+  s!"codes={lim_conncode.MaxActiveCodesPerClient} mappings={lim_conncode.MaxActiveMappingsPerClient}"
 
 def runModel (ts : List String) : String :=
   if ts = ["caps"] then capsLine else
@@ -128,10 +128,10 @@ def runModel (ts : List String) : String :=
 def runHolds (caseToks obsToks : List String) : String :=
   if caseToks = ["caps"] then
     -- the defaults are positive bounds, and the constructors use the named constants
-    boolStr (" ".intercalate obsToks == capsLine && 0 < session.DefaultMaxConnections &&
-             session.DefaultMaxControlConnections ≤ session.DefaultMaxConnections &&
-             sessioncfg.MaxConnections == session.DefaultMaxConnections &&
-             sessioncfg.MaxControlConnections == session.DefaultMaxControlConnections)
+    boolStr (" ".intercalate obsToks == capsLine && 0 < lim_session.DefaultMaxConnections &&
+             lim_session.DefaultMaxControlConnections ≤ lim_session.DefaultMaxConnections &&
+             lim_sessioncfg.MaxConnections == lim_session.DefaultMaxConnections &&
+             lim_sessioncfg.MaxControlConnections == lim_session.DefaultMaxControlConnections)
   else
   match caseToks with
   | "free" :: _ =>
